@@ -3,7 +3,8 @@ CONSTANTS
   Focus = {1, 2, 3, 4, 5, 6, 7, 8, 9, 10}
   MaxSteps = 2
   Kinds2 = {"set", "subset", "refill", "same"}
-  MaxInit = 4
+  MaxV = 5
+  MaxInit = 3
   FreeAll = FALSE
   Emit = TRUE
 INVARIANTS InitValid OpsValid ApplyAllowed RefillIsIdentity EmitCase
